@@ -259,7 +259,7 @@ theorem enc_loop (l : List Bool) (hn : l.length < 2^62) :
     have hi : i = l.length := by omega
     subst hi
     have hload := encMem_load l arr env l.length h1
-    have hx := execFrom_ge srcNoOracle 4 f encBody _ cs _
+    have hx := execFrom_ge_codec srcNoOracle 4 f encBody _ cs _
       (C17S_encode_iter_exit env cs l.length (boolCell l l.length) (byteCell arr (l.length / 8))
         hn h1 h2)
       (fun h => nomatch h) (by omega)
@@ -297,7 +297,7 @@ theorem enc_loop (l : List Bool) (hn : l.length < 2^62) :
             ("in[i]", .ofBool true) :: ("out[i/8]", .int (arr[i / 8]).toNat) :: env := ⟨_, rfl⟩
       have hx : execFrom srcNoOracle f encBody ((encMem l).load arr env) cs = ⟨env1, .fell, cs⟩ := by
         rw [hload, hE]
-        exact execFrom_ge srcNoOracle 4 f encBody _ cs _
+        exact execFrom_ge_codec srcNoOracle 4 f encBody _ cs _
           (C17S_encode_iter_true env cs l.length i arr[i / 8] hn hi h1 h2) (fun h => nomatch h)
           (by omega)
       rw [loopMem_fell _ _ _ _ _ _ _ _ _ hx]
@@ -319,7 +319,7 @@ theorem enc_loop (l : List Bool) (hn : l.length < 2^62) :
             ("in[i]", .ofBool false) :: ("out[i/8]", .int (arr[i / 8]).toNat) :: env := ⟨_, rfl⟩
       have hx : execFrom srcNoOracle f encBody ((encMem l).load arr env) cs = ⟨env1, .fell, cs⟩ := by
         rw [hload, hE]
-        exact execFrom_ge srcNoOracle 4 f encBody _ cs _
+        exact execFrom_ge_codec srcNoOracle 4 f encBody _ cs _
           (C17S_encode_iter_false env cs l.length i (.int (arr[i / 8]).toNat) hn hi h1 h2)
           (fun h => nomatch h) (by omega)
       rw [loopMem_fell _ _ _ _ _ _ _ _ _ hx]
@@ -479,7 +479,7 @@ theorem dec_loop (bytes : Bytes) (q : Nat) (hq : q < 65536) :
     have hi : i = q := by omega
     subst hi
     have hload := decMem_load bytes env i h1
-    have hx := execFrom_ge appendOracle 4 f decBody _ cs _
+    have hx := execFrom_ge_codec appendOracle 4 f decBody _ cs _
       (C17S_decode_iter_exit env cs i (byteCell bytes (i / 8)) hq h1 h2) (fun h => nomatch h)
       (by omega)
     rw [← hload] at hx
@@ -501,7 +501,7 @@ theorem dec_loop (bytes : Bytes) (q : Nat) (hq : q < 65536) :
       have hd : Enc.decodeBoolsFrom bytes i (k + 1) = none := by rw [Enc.decodeBoolsFrom, hc]
       have hcell : byteCell bytes (i / 8) = .unk := by simp [byteCell, hc]
       rw [hcell] at hload
-      have hx := execFrom_ge appendOracle 4 f decBody _ cs _
+      have hx := execFrom_ge_codec appendOracle 4 f decBody _ cs _
         (C17S_decode_iter_oob env cs q i hq hi h1 h2 h3) (fun h => nomatch h) (by omega)
       rw [← hload] at hx
       constructor
@@ -521,7 +521,7 @@ theorem dec_loop (bytes : Bytes) (q : Nat) (hq : q < 65536) :
       have hx : execFrom appendOracle f decBody ((decMem bytes).load () env) cs =
           ⟨env1, .fell, cs ++ [appendCall (v.getLsbD (i % 8))]⟩ := by
         rw [hload, hE]
-        exact execFrom_ge appendOracle 4 f decBody _ cs _
+        exact execFrom_ge_codec appendOracle 4 f decBody _ cs _
           (C17S_decode_iter env cs q i v hq hi h1 h2 h3) (fun h => nomatch h) (by omega)
       have hstep := loopMem_fell appendOracle (decMem bytes) f decBody () env cs _ _ hx
       have hst : (decMem bytes).store () ((decMem bytes).load () env) env1 = () := rfl
